@@ -631,9 +631,14 @@ impl DatabaseBuilder {
             }
         }
 
+        // The live segment of a bucket is the newest one that has an events file, which is how
+        // `BucketSegmentWriter::latest` picks the segment it reopens for writing: a crash between
+        // creating the next segment's directory and its events file leaves an empty directory
+        // behind, which must not turn the real live segment into a sealed one.
         let latest_segments: HashMap<BucketId, SegmentId> =
             segments
                 .iter()
+                .filter(|(_, files)| files.events.is_some())
                 .fold(HashMap::new(), |mut latest, (bucket_segment_id, _)| {
                     latest
                         .entry(bucket_segment_id.bucket_id)
